@@ -342,6 +342,54 @@ func init() {
 		}
 		return tuple{ifc, iface{}}
 	})
+	reg("net.IPv4", func(fr *frame, args []value) value {
+		ip := make([]value, 16)
+		for j := 0; j < 10; j++ {
+			ip[j] = uint8(0)
+		}
+		ip[10], ip[11] = uint8(0xff), uint8(0xff)
+		for j := 0; j < 4; j++ {
+			ip[12+j] = args[j]
+		}
+		return ip
+	})
+	reg("(net.IP).To4", func(fr *frame, args []value) value {
+		ip, _ := args[0].([]value)
+		if len(ip) == 4 {
+			return ip
+		}
+		if len(ip) == 16 {
+			return ip[12:16]
+		}
+		return []value(nil)
+	})
+	reg("(net.IP).To16", func(fr *frame, args []value) value {
+		ip, _ := args[0].([]value)
+		if len(ip) == 16 {
+			return ip
+		}
+		if len(ip) == 4 {
+			out := make([]value, 16)
+			for j := 0; j < 10; j++ {
+				out[j] = uint8(0)
+			}
+			out[10], out[11] = uint8(0xff), uint8(0xff)
+			copy(out[12:], ip)
+			return out
+		}
+		return []value(nil)
+	})
+	reg("net.Dial", func(fr *frame, args []value) value {
+		c := fr.i.ex.dialConn
+		if c == nil {
+			panic(engineError{"net.Dial without verifrt.SetDialConn"})
+		}
+		ifc := c.(iface)
+		if ifc.t == nil {
+			return tuple{iface{}, mkError(fr, "dial failed (harness)")}
+		}
+		return tuple{ifc, iface{}}
+	})
 	// ---- verifrt: virtual clock
 	reg(rtPkg+".Advance", func(fr *frame, args []value) value {
 		ex := fr.i.ex
